@@ -8,14 +8,17 @@ CFG = {
     "harness_timeout": 2400,
     "families": {
         "history": {"header": _H, "model_fn": "model_history", "rule": "F"},
+        "globhistory": {"header": _H, "model_fn": "model_ghistory", "rule": "F"},
     },
-    "rule_text": "case = one history of add_raw_templates / autoescape_on calls on one long-lived instance over a pool of 35 "
+    "rule_text": "case = one history of add_raw_templates / add_template_file / add_template_files / autoescape_on calls on one long-lived instance over a pool of 35 "
                  "(name, source) descriptors that contains every failure kind (syntax error, missing parent, extends cycle, "
                  "include cycle, unknown filter / test / function / component / include target, duplicate component, orphan "
                  "block, a replacement that breaks a dependent template, and replacements that keep name, byte length, parent chain and block names while changing content, with descendants at distance 1 and 2, and replacements that change the parent chain of a template with descendants at distance 2 and 3), with the implementation's accept/reject + ErrorKind "
                  "after each call. Distinct by the Gallina term; non-trivial = at least two calls with at least one success and "
                  "one failure. Exhaustive sub-space: every history of <= 2 single-template calls (thorough: plus a sampled half of the 3-call ones) and every "
                  "two-template batch; every pool descriptor as a replacement on top of an accepted core, pairs of same-name variants as successive replacements, failing batches that repeat a name (undo order); the rest random (length <= 12, batches of 1..3, autoescape_on interleaved). After a failing add that touched existing or repeated names the observation is taken in a child process, so that a never-validated template left behind by a broken rollback is reported with its history instead of killing the harness. "
+                 "File calls read real files written under <out>/files (the harness's working directory) at the moment the engine's loop asks for the entry: with an explicit name (own path) or with the path as the name, and with the failure kinds only files have (no file at the path, a directory, content that is not UTF-8, a path that is not UTF-8) first, in the middle and last in a batch, next to syntax errors and templates that do not finalize; the same key twice in one batch; single files go through add_template_file. Sub-space for file calls: every pool descriptor as one file under both namings, every 2-call history and every 2-file batch over the pool with at least one file call (thorough: every pair in one of the two shapes, alternating; quick: every 61st pair, so that the quick tier keeps its number of Coq shards), failing 3-file batches of same-name variants on top of an accepted core with the failing entry last or in the middle (thorough: all 169 pairs; quick: every 13th), random histories mixing all call kinds (25 / 1000); in a history with file calls the shuffled fresh instance is itself filled through add_template_files. "
+                 "Family globhistory: histories over all call kinds including load_from_glob(<dir>/*) on two directories, full_reload, an invalid pattern, reload without a glob; the harness fills the directory before each glob call (good files, files that are not UTF-8, file names that are not UTF-8, sub-directories, syntax errors, sets that do not finalize) and records what the engine's own walk function returns; non-trivial = at least one successful glob call and one failing call. Extra oracles there: the second fresh instance is filled by a glob load of a directory holding exactly the set; after every failing call a copy taken before and a copy taken after the call must behave alike under full_reload() (remembered glob and from_glob marks). "
                  "Implementation-side oracle on every call: a failing call leaves names / every render / every render_block / "
                  "every get_component_definition and render_component unchanged; after every call the instance is "
                  "observationally equal to a fresh instance given the resulting set in one sorted and one shuffled batch.",
@@ -24,17 +27,25 @@ CFG = {
         "modelled, not verified: HashMap<String,_> as a key-sorted association list (canonical representative of a finite map); "
         "the parser/compiler as the descriptor the harness derives from the same structured template it prints",
     ],
-    "modelled": ["tera.rs add_raw_templates (insertion loop, undo list), finalize_templates (all passes, commit only on success), "
+    "modelled": ["tera.rs load_from_glob (keep manual templates, add every matched file collecting errors without early exit, mark from_glob, finalize, restore templates and glob on any error), full_reload",
+                 "tera.rs add_file / add_template_file / add_template_files (the four error exits of add_file in order, key = name or path, insertion loop, undo list, early exit) -- proved equal to add_raw_templates on the batch of entries up to the first failing one, up to the kind of the error",
+                 "tera.rs add_raw_templates (insertion loop, undo list), finalize_templates (all passes, commit only on success), "
                  "set_templates_auto_escape / autoescape_on, resolve_template_name, get_template_priority",
                  "template.rs Template::new (fresh derived fields), find_parents, check_include_cycles (with the D10 repair), find_block_cycle (D13 repair)"],
     "assumptions": ["implementation == model only on the histories enumerated by the harness",
-                    "add_template_files / load_from_glob share the same insert-then-finalize-with-undo shape but are not exercised",
+                    "the file system is modelled by its answers: each (path, name) entry carries what reading the path yields (bad path / cannot open / cannot read / content); "
+                    "the harness produces each answer with a real file and the engine's own std::fs calls",
+                    "globbing::load_from_glob (walkdir + globset: which files a pattern matches, in which order) is modelled by its answer; "
+                    "the harness obtains the answer by calling that public function on the same directory just before the engine does; "
+                    "only patterns of the form <dir>/* and one invalid pattern are exercised",
+                    "Template.from_glob is modelled as a set of names next to the instance (Model/RegistryGlob.v says why); Template.path is never read by the engine and is not modelled",
+                    "the harness is built with the cargo feature glob_fs of tera enabled (harness/Cargo.toml)",
                     "set_fallback_prefixes / set_delimiters / register_* are only legal or only meaningful before templates exist; "
                     "they are part of the fixed configuration `env`"],
 }
 
 MANIFEST = (
     "Rocq proof: undo list restores every map, a failing add is the identity, every reachable state is finalize(current set, configuration), so order and grouping cannot matter; correspondence run over histories + fresh-instance oracle",
-    "Theorems (Props/C10.v, closed under the global context) prove for every map and every batch (duplicates, syntax errors in the middle) that replaying the undo list in reverse restores the map, that any failing add_raw_templates call leaves the instance exactly as it was, that after a successful call the instance equals a fresh instance given the resulting (name, source) set in one batch of any order, and by induction over arbitrary histories (adds, failing adds of every kind, autoescape_on) that the state is always a function of the current set, the configuration and the suffixes -- hence independent of order and grouping. The Gallina port is tied to the Rust code by running enumerated and random histories on one long-lived Tera and comparing accept/reject + ErrorKind inside coqc, and by the implementation-side oracle that compares observable behaviour with fresh instances. A universal theorem is the right level because the property quantifies over all histories; staleness or partial rollback shows only after particular ones.",
+    "Theorems (Props/C10.v, closed under the global context) prove for every map and every batch (duplicates, syntax errors in the middle) that replaying the undo list in reverse restores the map, that any failing add_raw_templates or add_template_file(s) call (including files that cannot be opened or are not UTF-8, anywhere in the batch) leaves the instance exactly as it was, that the file loop is the raw loop on the batch of entries up to the first failing one, that after a successful call the instance equals a fresh instance given the resulting (name, source) set in one batch of any order, that a failing load_from_glob / full_reload restores templates, marks and the remembered glob while a successful one equals a fresh instance given the manual templates plus the matched files, and by induction over arbitrary histories (raw adds, file adds, glob loads, reloads, failing calls of every kind, autoescape_on) that the state is always a function of the current set, the configuration and the suffixes -- hence independent of order and grouping. The Gallina port is tied to the Rust code by running enumerated and random histories on one long-lived Tera and comparing accept/reject + ErrorKind inside coqc, and by the implementation-side oracle that compares observable behaviour with fresh instances. A universal theorem is the right level because the property quantifies over all histories; staleness or partial rollback shows only after particular ones.",
     "§6 C10",
 )
